@@ -393,6 +393,42 @@ func judge(c Case, snapDir, work string, before, after mstate, lenient map[int]b
 			return fmt.Sprintf("blob %s is listed complete after reopening with wrong bytes: got %x want %x", name, got, want.data), nil
 		}
 	}
+	// 1b. The in-flight operation's own key is judged leniently only in what that operation
+	// changes. Completion, ban/unban and metadata operations never destroy a blob, so a blob
+	// they were working on must still be there with its bytes: complete blobs stay complete,
+	// and an incomplete blob is restored when the store is configured to reboot incomplete
+	// blobs (it may already be complete if the in-flight operation was its completion).
+	for k, b := range before {
+		destroying := inOp != nil && inOp.Key == k && (inOp.Kind == "delete" || inOp.Kind == "create")
+		evictedInFlight := lenient[k] && (inOp == nil || inOp.Key != k)
+		if destroying || evictedInFlight {
+			continue
+		}
+		name := keys[k]
+		if b.complete {
+			if !contains(cl, name) {
+				return fmt.Sprintf("blob %s completed before the crash is not listed complete after reopening although the operation in flight (%s) does not remove blobs (complete=%v incomplete=%v)", name, inOp.Kind, cl, il), nil
+			}
+			got, err := readAll(s.ScopeComplete(), name)
+			if err != nil || !bytes.Equal(got, b.data) {
+				return fmt.Sprintf("blob %s completed before the crash reads %x, %v after reopening (want %x)", name, got, err, b.data), nil
+			}
+			continue
+		}
+		if c.Reboot && !contains(il, name) && !contains(cl, name) {
+			where := "no operation was in flight on it"
+			if inOp != nil && inOp.Key == k {
+				where = "the operation in flight on it was " + inOp.Kind
+			}
+			return fmt.Sprintf("incomplete blob %s was dropped on reopening although incomplete blobs are configured to be restored (%s; complete=%v incomplete=%v)", name, where, cl, il), nil
+		}
+		if c.Reboot && contains(il, name) {
+			got, err := readAll(s.ScopeIncomplete(), name)
+			if err != nil || !bytes.Equal(got, b.data) {
+				return fmt.Sprintf("restored incomplete blob %s reads %x, %v after reopening (want the %d bytes written before the crash: %x)", name, got, err, len(b.data), b.data), nil
+			}
+		}
+	}
 	// 3. Incomplete blobs: dropped when configured so; otherwise absent or restored.
 	if !c.Reboot && len(il) > 0 {
 		return fmt.Sprintf("incomplete blobs %v are listed after reopening although reboot of incomplete blobs is off", il), nil
@@ -594,7 +630,7 @@ func TestProp(t *testing.T) {
 	pbt.Main(t, pbt.Spec{
 		ID:    "C06",
 		Level: "fault_enumeration",
-		Rule: "rapid generates workloads (2-14 ops over 4 keys: create+write, complete, delete, ban, unban, set/delete/write-at metadata; capacity 100 so creates evict) x {reboot incomplete on/off} x {shard length 0,1,2}; each runs in a child under ptrace and EVERY prefix of its store-mutating system calls is snapshotted and recovered from (evaluations = recovered crash states, deduplicated per workload by tree hash+expectation); oracle: NewStore succeeds, blobs completed by returned ops are listed complete with bytes/movable metadata/ban flag (ban observed via Clean), nothing else is complete, incomplete blobs dropped or restored with the size given to Create (observed through Clean's utilisation at capacity 100), every key can then be created, written and completed; the key of the in-flight op and keys it evicts are judged leniently. non-trivial = crash state strictly inside an operation whose tree differs from the trees at that operation's start and end; distinct by (config, tree hash)",
+		Rule: "rapid generates workloads (2-14 ops over 4 keys: create+write, complete, delete, ban, unban, set/delete/write-at metadata; capacity 100 so creates evict) x {reboot incomplete on/off} x {shard length 0,1,2}; each runs in a child under ptrace and EVERY prefix of its store-mutating system calls is snapshotted and recovered from (evaluations = recovered crash states, deduplicated per workload by tree hash+expectation); oracle: NewStore succeeds, blobs completed by returned ops are listed complete with bytes/movable metadata/ban flag (ban observed via Clean), nothing else is complete, incomplete blobs dropped or restored with the size given to Create (observed through Clean's utilisation at capacity 100), every key can then be created, written and completed; the key of the in-flight op is judged leniently only in what that op changes (a completion/ban/metadata op in flight must not lose the blob or its bytes; with reboot on, incomplete blobs of returned Creates must be restored with their bytes); keys an in-flight Create evicts are lenient. non-trivial = crash state strictly inside an operation whose tree differs from the trees at that operation's start and end; distinct by (config, tree hash)",
 		Assumptions: []string{
 			"process-crash model: completed system calls persist, nothing later happens; a single write system call is atomic",
 			"the model of returned operations takes evictions from the implementation's own listing (C07 checks those against the LRU model)",
